@@ -656,9 +656,28 @@ class Walker:
         if isinstance(s, ast.Expr):
             if isinstance(s.value, ast.Constant):
                 return None
+            v = s.value
+            if isinstance(v, ast.Call) and isinstance(v.func, ast.Attribute) and v.func.attr == "extend" \
+                    and len(v.args) == 1 and not v.keywords and isinstance(v.args[0], (ast.GeneratorExp, ast.ListComp)) \
+                    and isinstance(v.func.value, (ast.Name, ast.Attribute)):
+                # `xs.extend(f(v) for v in it if c)`  is  `for v in it: if c: xs.append(f(v))`
+                comp = v.args[0]
+                inner: ast.stmt = ast.copy_location(ast.Expr(value=ast.copy_location(ast.Call(
+                    func=ast.copy_location(ast.Attribute(value=v.func.value, attr="append", ctx=ast.Load()), v),
+                    args=[comp.elt], keywords=[]), v)), s)
+                for g in reversed(comp.generators):
+                    for c in reversed(g.ifs):
+                        inner = ast.copy_location(ast.If(test=c, body=[inner], orelse=[]), s)
+                    inner = ast.copy_location(ast.For(target=g.target, iter=g.iter, body=[inner], orelse=[]), s)
+                return self.statement(inner, env)
             self.ev(s.value, env)
             return None
         if isinstance(s, ast.Assign):
+            if isinstance(s.value, ast.IfExp) and len(s.targets) == 1 and isinstance(s.targets[0], (ast.Attribute, ast.Subscript)):
+                # `obj.f = a if c else b`  is  `if c: obj.f = a` / `else: obj.f = b`
+                mk = lambda v: ast.copy_location(ast.Assign(targets=s.targets, value=v, lineno=s.lineno), s)
+                node = ast.copy_location(ast.If(test=s.value.test, body=[mk(s.value.body)], orelse=[mk(s.value.orelse)]), s)
+                return self.if_(node, env)
             val = self.ev(s.value, env)
             for t in s.targets:
                 self.assign(t, val, env, s)
@@ -777,6 +796,11 @@ class Walker:
             self.emit("store", stmt, target=tgt, value=val)
             self.invalidate({self.stored_field(tgt)} - {None}, env, elements_only=tgt[0] == "idx",
                             owner=self.stored_owner(tgt))
+            if val[0] == "new" and tgt[0] == "attr" and tgt[1] == ("self",):
+                # `g = Graph(...); self.graph = g`: from here on the local and the field name the same object
+                for n, v in list(env.items()):
+                    if v == val:
+                        env[n] = tgt
         elif isinstance(t, ast.Starred):
             self.assign(t.value, ("star", val), env, stmt)
         else:
@@ -864,8 +888,59 @@ class Walker:
             env[n] = ("phi", li.lid, n)
         return names, init
 
+    @staticmethod
+    def _all_but_one(dom: Term):
+        """chain(range(a), range(a + 1, n)) visits 0..n-1 without a, in ascending order: (range(n), a)."""
+        if dom[0] == "call" and dom[1] == ("mod", "itertools.chain") and len(dom[2]) == 2 and not dom[3]:
+            r1, r2 = dom[2]
+            rng = ("builtin", "range")
+            if r1[0] == "call" and r1[1] == rng and r2[0] == "call" and r2[1] == rng and not r1[3] and not r2[3] \
+                    and len(r2[2]) == 2 and (len(r1[2]) == 1 or (len(r1[2]) == 2 and r1[2][0] == ("const", 0))):
+                a = r1[2][-1]
+                lo, n = r2[2]
+                if lo == ("bin", "+", *sorted([("const", 1), a], key=tkey)):
+                    return ("call", rng, (n,), ()), a
+        return None
+
+    @staticmethod
+    def _prefix_slice(t: Term):
+        """A[:K] of an array allocated here with at least K slots: (A, K)."""
+        if t[0] == "idx" and t[2][0] == "slice" and t[2][1] in (None, ("const", 0)) and t[2][3] in (None, ("const", 1)) \
+                and t[2][2] is not None and t[1][0] == "alloc" and t[1][1] in ("numpy.zeros", "numpy.empty", "numpy.ones") \
+                and t[1][2] and t[1][2][0][0] not in ("tuple", "list"):
+            from .rules_heap import _sub, lin
+            d = _sub(lin(t[1][2][0]), lin(t[2][2]))
+            if d is not None and all(v == 0 for k, v in d.items() if k != 1) and d.get(1, 0) >= 0:
+                return t[1], t[2][2]
+        return None
+
+    def _slice_domain(self, dom: Term):
+        """`for x in A[:K]` / `for x, y in zip(A[:K], B[:K])`  visit ranks 0..K-1: (range(K), [A, B, ...])."""
+        ops = [dom]
+        zipped = dom[0] == "call" and dom[1] == ("builtin", "zip") and not dom[3] and len(dom[2]) >= 1
+        if zipped:
+            ops = list(dom[2])
+        ps = [self._prefix_slice(o) for o in ops]
+        if not ps or any(p is None for p in ps) or len({p[1] for p in ps}) != 1:
+            return None
+        return ("call", ("builtin", "range"), (ps[0][1],), ()), [p[0] for p in ps], zipped
+
     def for_(self, s: ast.For, env: Dict[str, Term]):
+        n_ev = len(self.events)
         dom = self.ev(s.iter, env)
+        sliced = self._slice_domain(dom)
+        if sliced is not None:
+            dom = sliced[0]
+            if all(e.kind == "call" and (e.name or "").startswith("builtin.") for e in self.events[n_ev:]):
+                del self.events[n_ev:]
+            self.emit("call", s.iter, target=("builtin", "range"), value=dom, name="builtin.range", args=dom[2], kwargs=())
+        skip = self._all_but_one(dom) if isinstance(s.target, ast.Name) else None
+        if skip is not None:
+            dom = skip[0]
+            # the builtin calls that spelt the domain are replaced by the canonical one
+            if all(e.kind == "call" and (e.name or "").startswith(("builtin.", "itertools.")) for e in self.events[n_ev:]):
+                del self.events[n_ev:]
+                self.emit("call", s.iter, target=("builtin", "range"), value=dom, name="builtin.range", args=dom[2], kwargs=())
         li = self._enter_loop("for", s, env)
         li.domain = dom
         tnames = assigned_names([ast.Assign(targets=[s.target], value=ast.Constant(0))])
@@ -886,6 +961,13 @@ class Walker:
                         and not dom[3]:
                     # `for a, b in zip(xs, ys)`: a is xs[pos], b is ys[pos]
                     v = ("idx", dom[2][path[0]], ("iterproj", dom, li.lid, ("pos",)))
+                if sliced is not None:
+                    arrays, zipped = sliced[1], sliced[2]
+                    r = ("iter", dom, li.lid)
+                    if not zipped and not path:
+                        v = ("idx", arrays[0], r)
+                    elif zipped and len(path) == 1 and path[0] < len(arrays):
+                        v = ("idx", arrays[path[0]], r)
                 env[t.id] = v
                 li.targets[t.id] = v
             elif isinstance(t, (ast.Tuple, ast.List)):
@@ -896,7 +978,14 @@ class Walker:
 
         bind(s.target, [])
         self.cont_stack.append((len(self.guards), []))
+        if skip is not None:
+            # ... which is `for q in range(n): if q != a: body`
+            g = mk_cmp("!=", skip[1], ("iter", dom, li.lid))
+            self.guard_src.setdefault(g, (s.lineno, "for " + unparse(s.target) + " in " + unparse(s.iter), self.fnstack[-1]))
+            self.guards.append((g, True))
         self.block(s.body, env)
+        if skip is not None:
+            self.guards.pop()
         self._merge_continues(env, names)
         self.loopstack.pop()
         for n in names:
@@ -925,13 +1014,22 @@ class Walker:
     def while_(self, s: ast.While, env: Dict[str, Term]):
         li = self._enter_loop("while", s, env)
         names, init = self._loop_body(li, s.body, env, [])
-        cond = self.ev(s.test, env)
+        body = s.body
+        first = next((x for x in body if not (isinstance(x, ast.Expr) and isinstance(x.value, ast.Constant))), None)
+        if isinstance(s.test, ast.Constant) and s.test.value is True and isinstance(first, ast.If) \
+                and len(first.body) == 1 and isinstance(first.body[0], ast.Break) and not first.orelse and not s.orelse:
+            # `while True: if c: break; rest`  is  `while not c: rest`
+            cond = mk_not(self.boolify(self.ev(first.test, env)))
+            body = body[body.index(first) + 1:]
+            self.guard_src.setdefault(cond, (first.lineno, "while not (" + unparse(first.test) + ")", self.fnstack[-1]))
+        else:
+            cond = self.ev(s.test, env)
+            self.guard_src.setdefault(cond, (s.lineno, "while " + unparse(s.test), self.fnstack[-1]))
         li.cond = cond
-        self.guard_src.setdefault(cond, (s.lineno, "while " + unparse(s.test), self.fnstack[-1]))
         self.loopstack.append(li.lid)
         self.guards.append((cond, True))
         self.cont_stack.append((len(self.guards), []))
-        self.block(s.body, env)
+        self.block(body, env)
         self._merge_continues(env, names)
         self.guards.pop()
         self.loopstack.pop()
@@ -945,6 +1043,14 @@ class Walker:
 
     # -- expressions -----------------------------------------------------------
     def binop(self, op: str, l: Term, r: Term) -> Term:
+        isint = lambda t: t[0] == "const" and isinstance(t[1], int) and not isinstance(t[1], bool)
+        if op == "-" and isint(r) and l[0] == "bin" and l[1] == "+" and (isint(l[2]) != isint(l[3])):
+            # (a + c1) - c2  ->  a + (c1 - c2)   (exact for the integer quantities this is applied to: sizes, slots)
+            c1, a = (l[2], l[3]) if isint(l[2]) else (l[3], l[2])
+            d = c1[1] - r[1]
+            if d == 0:
+                return a
+            return self.binop("+", a, ("const", d)) if d > 0 else ("bin", "-", a, ("const", -d))
         if op in ("+", "*"):
             l, r = sorted([l, r], key=tkey)
         return ("bin", op, l, r)
@@ -1124,7 +1230,14 @@ class Walker:
     def call(self, e: ast.Call, env: Dict[str, Term]) -> Term:
         # super(...).__init__(...) and friends
         fn = self.ev(e.func, env)
-        args = tuple(self.ev(a, env) for a in e.args)
+        args = []
+        for a in e.args:
+            v = self.ev(a, env)
+            if v[0] == "star" and v[1][0] in ("tuple", "list") and isinstance(v[1][1], tuple):
+                args.extend(v[1][1])  # f(*args) with args a tuple built in this function
+            else:
+                args.append(v)
+        args = tuple(args)
         kwargs = tuple((k.arg or "**", self.ev(k.value, env)) for k in e.keywords)
         # local functions: the body is walked in the environment of the call site (same scope)
         r = self.call_closure(fn, args, kwargs, e, env)
@@ -1141,6 +1254,11 @@ class Walker:
             t = ("call", ("builtin", "range"), (new_lo, new_hi, m1), ())
             self.emit("call", e, target=("builtin", "range"), value=t, name="builtin.range", args=t[2], kwargs=())
             return t
+        # len of a 1-D array allocated in this function with a scalar size is that size
+        if fn == ("builtin", "len") and len(args) == 1 and not kwargs and args[0][0] == "alloc" \
+                and args[0][1] in ("numpy.zeros", "numpy.empty", "numpy.ones") and args[0][2] \
+                and args[0][2][0][0] not in ("tuple", "list"):
+            return args[0][2][0]
         # max/min idioms
         fname = None
         if fn[0] == "mod":
